@@ -114,15 +114,86 @@ func (m *C18ChainMonitor) EndBlockExit(c *Chain, ctx sdk.Context, err error) {
 // balance of that block; what enters the tips escrow at aggregation is exactly the tips of the aggregated rounds plus that.
 type C09ChainMonitor struct {
 	BaseMonitor
-	st      *Stats
-	tbr     math.Int
-	escrow  math.Int
-	queries map[string]oracletypes.QueryMeta
-	credits map[string]math.LegacyDec // SelectorTips at EndBlock entry
+	st         *Stats
+	tbr        math.Int
+	escrow     math.Int
+	queries    map[string]oracletypes.QueryMeta
+	credits    map[string]math.LegacyDec // SelectorTips at EndBlock entry
+	reportedAt map[string]int64          // query id | reporter -> height of its last accepted report
 }
 
 func NewC09ChainMonitor(st *Stats) *C09ChainMonitor { return &C09ChainMonitor{st: st} }
 func (m *C09ChainMonitor) Name() string             { return "c09chain" }
+
+// AfterTx: "each selector's stake recorded when the report was made" - the stake snapshot stored for an accepted report
+// is, per backer, what that backer has delegated to bonded validators at this moment according to x/staking (added after
+// C09-j, which kept the snapshot of an earlier report of the same block).
+func (m *C09ChainMonitor) AfterTx(c *Chain, ctx sdk.Context, tx sdk.Tx, ok bool) {
+	if !ok {
+		return
+	}
+	for _, msg := range tx.GetMsgs() {
+		x, isReport := msg.(*oracletypes.MsgSubmitValue)
+		if !isReport {
+			continue
+		}
+		rep, err := sdk.AccAddressFromBech32(x.Creator)
+		if err != nil {
+			continue
+		}
+		qid := QueryID(x.QueryData)
+		snap, err := c.App.ReporterKeeper.Report.Get(ctx, collJoinReport(qid, rep, uint64(ctx.BlockHeight())))
+		if err != nil {
+			continue
+		}
+		got := map[string]math.Int{}
+		for _, o := range snap.TokenOrigins {
+			addTo(got, sdk.AccAddress(o.DelegatorAddress).String(), o.Amount)
+		}
+		iter, err := c.App.ReporterKeeper.Selectors.Indexes.Reporter.MatchExact(ctx, rep.Bytes())
+		if err != nil {
+			continue
+		}
+		var sels []sdk.AccAddress
+		for ; iter.Valid(); iter.Next() {
+			if k, err := iter.PrimaryKey(); err == nil {
+				sels = append(sels, sdk.AccAddress(k))
+			}
+		}
+		iter.Close()
+		m.st.Count("c09chain.snapshot.evals")
+		bad := ""
+		seen := map[string]bool{}
+		for _, s := range sels {
+			sel, err := c.App.ReporterKeeper.Selectors.Get(ctx, s.Bytes())
+			if err != nil || sel.LockedUntilTime.After(ctx.BlockTime()) {
+				continue
+			}
+			lo, hi, _, _ := bondedStake(c, ctx, s)
+			g, ok := got[s.String()]
+			if !ok {
+				g = math.ZeroInt()
+			}
+			seen[s.String()] = true
+			if g.LT(lo) || g.GT(hi) {
+				bad = fmt.Sprintf("backer %s recorded with %s, has %s..%s bonded", s.String(), g, lo, hi)
+			}
+		}
+		for d, g := range got {
+			if !seen[d] && g.IsPositive() {
+				bad = fmt.Sprintf("recorded backer %s (%s) is not an active selector of the reporter", d, g)
+			}
+		}
+		m.st.Bucket("c09chain|snapshot|backers=%d|second-report-of-the-block=%v", minInt(len(got), 4), m.reportedAt[string(qid)+"|"+x.Creator] == ctx.BlockHeight())
+		if m.reportedAt == nil {
+			m.reportedAt = map[string]int64{}
+		}
+		m.reportedAt[string(qid)+"|"+x.Creator] = ctx.BlockHeight()
+		if bad != "" {
+			c.Violate("C09", "c09chain", "stake-snapshot-of-the-report-is-not-the-stake-selected-when-it-was-made", map[string]interface{}{"reporter": x.Creator, "why": bad})
+		}
+	}
+}
 
 func (m *C09ChainMonitor) EndBlockEntry(c *Chain, ctx sdk.Context) {
 	m.credits, _ = selectorTips(c, ctx)
